@@ -65,6 +65,16 @@ fn u_strategy(big: bool) -> BoxedStrategy<Vec<u8>> {
         2 => prop::sample::select(fixed),
         1 => (0usize..8 * l).prop_map(move |b| { let mut v = vec![0u8; l]; v[b / 8] = 1 << (b % 8); v }),
         1 => prop::collection::vec(prop::sample::select(vec![0u8, 0xFF, 0x80, 0x7F]), l),
+        // u = t/4 (or t/2, t) mod p where the 64-, 32- or 51-bit units of t sit on the carry boundaries of the multiplication by
+        // the ladder constant (a24 = 121665 / 39081, and a24 + 1): with the top scalar bit set by clamping, the first ladder
+        // step computes E = (u+1)^2 - (u-1)^2 = 4u and multiplies it by that constant
+        2 => (prop::sample::select(if big { vec![39081u32, 39082, 156326] } else { vec![121665u32, 121666, 486662] }), prop::collection::vec(any::<u32>(), 9), prop::collection::vec(any::<u8>(), 9), 0u8..3, prop::sample::select(vec![4u32, 4, 2, 1]))
+            .prop_map(move |(x, js, ds, w, div)| {
+                let p = if big { (BigUint::one() << 448) - (BigUint::one() << 224) - 1u32 } else { (BigUint::one() << 255) - 19u32 };
+                let t = pf::from_limbs_le(&crate::gen::carry_limbs(x, l / 8, &js, &ds, w)) % &p;
+                let u = pf::mul(&t, &pf::inv(&BigUint::from(div), &p), &p);
+                pf::to_le(&u, l)
+            }),
     ]
     .boxed()
 }
@@ -87,7 +97,7 @@ impl Property for C14 {
         "C14"
     }
     fn rule(&self) -> String {
-        "Each case = (u string, scalar string, second scalar) for X25519 or X448: u from {uniform, 0..3, p-1-d, p+d, 2p+d, 2^255+-d, 2^256-1-d, the known low-order u values and their non-canonical forms u+p / u+2^255, single bits, byte fills}, scalars from {uniform, all-zero, all-ones, single bit set / cleared}. Oracle: the RFC 7748 ladder on big integers (clamping, top bit of the X25519 u ignored, reduction of non-canonical u); x*_base(k) == x*(9|5, k); DH symmetry x(x_base(k2), k) == x(x_base(k), k2). Non-trivial: u non-canonical / low order / on the twist boundary set, or a structured scalar. distinct = distinct case hash.".into()
+        "Each case = (u string, scalar string, second scalar) for X25519 or X448: u from {uniform, 0..3, p-1-d, p+d, 2p+d, 2^255+-d, 2^256-1-d, the known low-order u values and their non-canonical forms u+p / u+2^255, single bits, byte fills, u = t/4 with the limbs of t on the carry boundaries of the multiplication by the ladder constant}, scalars from {uniform, all-zero, all-ones, single bit set / cleared}. Oracle: the RFC 7748 ladder on big integers (clamping, top bit of the X25519 u ignored, reduction of non-canonical u); x*_base(k) == x*(9|5, k); DH symmetry x(x_base(k2), k) == x(x_base(k), k2). Non-trivial: u non-canonical / low order / on the twist boundary set, or a structured scalar. distinct = distinct case hash.".into()
     }
     fn shard_size(&self) -> u64 {
         100
